@@ -5,8 +5,8 @@
    is listed as unproved in props/C14.json and is decided, for now, by the specification
    oracle evaluated on real copy.Copy runs inside a chroot jail with a sentinel tree. *)
 From Coq Require Import List NArith Bool.
-From FS Require Import Sx Model.Path Model.Fs Model.RootPath Proofs.Lex Proofs.PathP Proofs.CleanP
-  Proofs.RootPathP Proofs.RootPathWitnessP.
+From FS Require Import Sx Model.Path Model.Fs Model.RootPath Model.CopyFs Model.CopyFsSpec
+  Proofs.Lex Proofs.PathP Proofs.CleanP Proofs.RootPathP Proofs.RootPathWitnessP Proofs.CopyContainedP.
 Import ListNotations.
 
 (* Whatever the argument (any number of "..", empty components, dots, separators), the
@@ -103,3 +103,25 @@ Example rootpath_examples :
   /\ plain_dir wA 1 [[106]] = Some 2
   /\ link_free wA 2 [[114];[115]] = true /\ link_free wA 2 [[112];[121]] = false.
 Proof. vm_compute. repeat split. Qed.
+
+(* ---------------------------------------------------------------------------------------
+   The copier over the syscall-level model (Model/CopyFs.v, validated against the real copy.Copy
+   by kind 1404).  Vocabulary (Model/CopyFsSpec.v): [chain f d cs e] = the names cs lead from
+   directory d to directory e through real directories; [inside_dir f dr i] = i is dr or a
+   directory below it; [fs_wf] = allocation counter above all numbers in use, unique proper entry
+   names, one parent entry per directory, no directory below itself. *)
+
+(* copier.copy / copyDirectory (copy_rec) into "<dstRoot>/cs/x" where cs are real directories:
+   whatever the source, the options, the symlinks and hard links below, of the inodes that existed
+   before only DIRECTORIES at or below dstRoot can have changed: no file anywhere (not even one
+   inside dstRoot that is also linked from outside), no directory outside, not dstRoot's entry in
+   its parent. *)
+Theorem copy_rec_contained :
+  forall fuel c o src ow f0 dr dcs cs x d s' r,
+    fs_wf f0 ->
+    forallb name_ok dcs = true -> chain f0 (c_root c) dcs dr -> (length dcs < rfuel)%nat ->
+    forallb name_ok cs = true -> name_ok x = true -> chain f0 dr cs d ->
+    copy_rec fuel c o src (render (dcs ++ cs ++ [x])) ow (cst_init f0) = (s', r) ->
+    forall i, (i < f_next f0)%N -> ~ inside_dir f0 dr i -> get (s_fs s') i = get f0 i.
+Proof. exact copy_rec_contained_proof. Qed.
+Print Assumptions copy_rec_contained.
